@@ -19,8 +19,9 @@ for pid in ALL:
         replay_cmd_template="./check %s --replay {path}" % pid,
         engine="verus" + ("+kani" if c.get("kani") else ""),
         level_claimed=dict(category="proof", text=c["claim"], design_ref=c.get("design_ref", "DESIGN.md section 5 / " + pid)),
-        level_note=c.get("level_note", "Assumed contracts of prelude/ (std io/sync/mpsc/str/iter, dependencies), Rust drop semantics, extraction rewrites R1-R17; listed per run in evidence coverage.trusted_base and assumptions."),
-        technique=c.get("technique", "contract-based deductive verification (Verus) of the functions extracted verbatim from /repo on every run"),
+        level_note=c.get("level_note", "Assumed contracts of prelude/ (std io/sync/mpsc/str/iter, dependencies), Rust drop semantics, extraction rewrites R1-R27 (each application logged); listed per run in evidence coverage.trusted_base and assumptions."),
+        technique=c.get("technique", "contract-based deductive verification (Verus) of the functions extracted verbatim from /repo on every run"
+                        + ("; plus Kani harnesses on the real crate: " + ", ".join("%s (%s)" % (k["name"], "bounded stand-in, thorough tier" if k.get("bounded") else "complete, loop-free") for k in c["kani"]) if c.get("kani") else "")),
     ))
 na = [dict(property_id=pid, reason=P.NOT_APPLICABLE.get(pid, "unit not built yet")) for pid in ALL if pid not in P.PROPS]
 m = dict(
